@@ -9,15 +9,20 @@ RULE = ("seqx BFS over operation histories on the real scheduler module, states 
         "history on a freshly installed scheduler, checks the select oracle and then drains the state completely under the same oracle; "
         "a state is non-trivial when its shortest history has >= 2 operations")
 
+FINDING_ID = 'ip-distance-appends-at-selection-end'
+
 # (module, ringlen, nprio, ndist, depth, priority value set, extra)
 def plan(tier):
     if tier == 'quick':
-        return [('ap', 3, 3, 3, 6, 0, []), ('ap', 2, 3, 2, 5, 2, []),
-                ('spq', 3, 3, 3, 5, 0, []), ('spq', 2, 2, 3, 6, 1, []),
-                ('ip', 3, 3, 1, 6, 0, []), ('ip', 2, 3, 1, 5, 2, [])]
-    return [('ap', 3, 3, 3, 8, 0, []), ('ap', 3, 4, 2, 6, 1, []), ('ap', 3, 3, 3, 6, 2, []),
-            ('spq', 3, 3, 3, 7, 0, []), ('spq', 2, 3, 4, 7, 1, []), ('spq', 3, 3, 3, 5, 2, []),
-            ('ip', 3, 3, 1, 8, 0, []), ('ip', 3, 4, 1, 6, 1, []), ('ip', 3, 3, 1, 6, 2, [])]
+        return [('ap', 3, 3, 3, 6, 0, []), ('ap', 2, 3, 2, 5, 2, []), ('ap', 3, 4, 2, 5, 1, []),
+                ('spq', 3, 3, 3, 4, 0, []), ('spq', 2, 3, 3, 5, 0, []), ('spq', 2, 2, 3, 6, 1, []), ('spq', 2, 3, 2, 5, 2, []),
+                ('ip', 3, 3, 1, 6, 0, []), ('ip', 2, 3, 1, 5, 2, []), ('ip', 3, 4, 1, 5, 1, [])]
+    return [('ap', 3, 3, 3, 8, 0, []), ('ap', 3, 4, 2, 7, 1, []), ('ap', 3, 3, 3, 7, 2, []),
+            ('spq', 3, 3, 3, 5, 0, []), ('spq', 2, 3, 3, 6, 0, []), ('spq', 2, 3, 4, 5, 1, []), ('spq', 3, 2, 3, 5, 2, []), ('spq', 1, 3, 3, 8, 0, []),
+            ('ip', 3, 3, 1, 8, 0, []), ('ip', 3, 4, 1, 7, 1, []), ('ip', 3, 3, 1, 7, 2, [])]
+
+def ip_distance_leg(tier):
+    return ('ip', 2, 3, 2, 4 if tier == 'quick' else 5, 0)
 
 def build(ctx):
     return ctx.compile('hk-shm', 'prio', ['prio_h.c'], instr=False)
@@ -26,13 +31,29 @@ def args_for(mod, L, P, D, depth, pv, extra):
     return ['--sched', mod, '--ringlen', str(L), '--nprio', str(P), '--ndist', str(D), '--depth', str(depth), '--pv', str(pv)] + list(extra)
 
 def check(ctx):
+    import os, vlib
+    from concurrent.futures import ThreadPoolExecutor
     exe = build(ctx)
-    dl = 60 if ctx.tier == 'quick' else 900
-    for (mod, L, P, D, depth, pv, extra) in plan(ctx.tier):
-        ctx.run_engine(exe, args_for(mod, L, P, D, depth, pv, extra) + ['--outdir', '/verif/out', '--deadline', str(dl)],
-                       label='%s_L%d_P%d_D%d_d%d_pv%d' % (mod, L, P, D, depth, pv), timeout=dl + 300)
+    dl = 70 if ctx.tier == 'quick' else 1000
+    legs = list(plan(ctx.tier))
+    # ip with distance>0: the unchanged tree violates the property there (NOTES.md, GENUINE DEFECT CANDIDATE).
+    # The leg reports VIOLATION unless the lead has recorded the finding in known_findings.json; then the harness
+    # applies the attribution rule and prints KNOWN-FINDING for attributable inversions only.
+    listed = any(f.get('property') == 'C09' and f.get('id') == FINDING_ID for f in vlib.known_findings())
+    if os.environ.get('VERIF_C09_IPDIST', 'on') != 'off':
+        m, L, P, D, depth, pv = ip_distance_leg(ctx.tier)
+        legs.append((m, L, P, D, depth, pv, ['--known-ip-distance'] if listed else []))
+    else:
+        ctx.notes.append('ip-with-distance leg switched off by VERIF_C09_IPDIST=off')
+    def one(leg):
+        mod, L, P, D, depth, pv, extra = leg
+        return ctx.run_engine(exe, args_for(mod, L, P, D, depth, pv, extra) + ['--outdir', '/verif/out', '--deadline', str(dl)],
+                              label='%s_L%d_P%d_D%d_d%d_pv%d' % (mod, L, P, D, depth, pv), timeout=dl + 300)
+    with ThreadPoolExecutor(max_workers=max(2, min(8, vlib.NJOBS // 2))) as ex:
+        list(ex.map(one, legs))
+    ctx.legs.sort(key=lambda l: l.get('leg', ''))
     return ctx.finish(RULE, ["single execution stream, no concurrent activity (as stated by the property)",
-                             "ip: distance 0 only (distance>0 is recorded as a defect candidate in NOTES.md)",
+                             "ip with distance>0 is a recorded defect candidate (NOTES.md); it is only tolerated through the attribution rule when listed in known_findings.json",
                              "the module keeps all of its state behind es->scheduler_object (true for ap, ip, spq)"])
 
 def replay(ctx, path, obj):
